@@ -30,9 +30,10 @@ TInv == /\ Ev.e = "Inv"
 TCola == Ev.e = "Cola" /\ Ev.o = "ret"                          \* iscola itself must not fail on valid arguments
 
 TStft == /\ Ev.e = "Stft" /\ Ev.o = "ret"
-         /\ Ev.nseg = NSeg(Ev.nx, Ev.nfft, Ev.overlap)
+         /\ Ev.nwin <= Ev.nfft
+         /\ Ev.nseg = NSeg(Ev.nx, Ev.nwin, Ev.overlap)          \* segments and hop are counted in window samples (nwin <= nfft)
          /\ Ev.bins_ok = 1
-         /\ Ev.outlen = IstftLen(Ev.nseg, Ev.nfft, Ev.overlap)
+         /\ Ev.outlen = IstftLen(Ev.nseg, Ev.nwin, Ev.overlap)
          /\ Ev.finite = TRUE                                    \* only finite values, also where the window weight is 0
          /\ Ev.err_milli <= 1000                                \* reproduces x wherever the accumulated weight is non-zero
 
